@@ -78,7 +78,7 @@ def Store.powerTable (s : Store) (i : Nat) : Option Nat :=
 inductive Res (α : Type) where
   | ok (a : α)
   | err (kind : String)
-deriving Repr
+deriving Repr, DecidableEq
 
 /-- result of `collectChain`: `none` = nil (propose just the base), `some l` = tipsets after the base
 up to and including the head, oldest first -/
@@ -163,19 +163,30 @@ def trim (m : Manifest) (ec : EC) (now : Int) (collected : List Nat) : List Nat 
       | some b => if now - b.time < m.period then c1.dropLast else c1
   c2
 
+/-- tipsets for a list of keys (`none` if EC does not know one of them) -/
+def tipsOf (ec : EC) : List Nat → Option (List Tip)
+  | [] => some []
+  | k :: ks =>
+    match tipOf ec k, tipsOf ec ks with
+    | some t, some ts => some (t :: ts)
+    | _, _ => none
+
+/-- the base of the proposal for an instance: the bootstrap tipset for the first instance, the head
+finalized by the previous instance otherwise -/
+def baseKeyOf (m : Manifest) (s : Store) (ec : EC) (inst : Nat) : Res Nat :=
+  if inst = m.initialInstance then
+    match ec.byEpoch (m.bootstrapEpoch - m.finality) with
+    | none => .err "bootstrapBase"
+    | some k => .ok k
+  else if inst = 0 then .err "prevCert"
+  else match s.get (inst - 1) with
+    | none => .err "prevCert"
+    | some c => .ok c.head
+
 /-- `gpbftInputs.GetProposal`: supplemental power table (canonical id) and the proposed chain.
 `panic` models the negative `make` length for a proposal length below one. -/
 def getProposal (m : Manifest) (s : Store) (ec : EC) (now : Int) (inst : Nat) : Res (Nat × List Tip) :=
-  let baseKey? : Res Nat :=
-    if inst = m.initialInstance then
-      match ec.byEpoch (m.bootstrapEpoch - m.finality) with
-      | none => .err "bootstrapBase"
-      | some k => .ok k
-    else if inst = 0 then .err "prevCert"
-    else match s.get (inst - 1) with
-      | none => .err "prevCert"
-      | some c => .ok c.head
-  match baseKey? with
+  match baseKeyOf m s ec inst with
   | .err e => .err e
   | .ok baseKey =>
     match ec.get baseKey, ec.get ec.head with
@@ -190,7 +201,7 @@ def getProposal (m : Manifest) (s : Store) (ec : EC) (now : Int) (inst : Nat) : 
         if suffixLen < 0 then .err "panic"
         else
           let suffixKeys := collected.take (min suffixLen collected.length).toNat
-          match tipOf ec baseKey, suffixKeys.mapM (tipOf ec) with
+          match tipOf ec baseKey, tipsOf ec suffixKeys with
           | some b, some sfx =>
             let chain := b :: sfx
             if !(epochsIncreasing chain) || decide (base.epoch < 0) then .err "newChain"
